@@ -19,7 +19,7 @@ PROPS = {
     "C08": {"families": [("c08", 2), ("mixed", 1), ("faultfree", 1), ("ctxcancel", 1), ("ctxrestart", 1), ("stoprestart", 1)], "crash_is_violation": True, "judge": ["C08"], "quick_s": 20, "thorough_s": 600},
     "C09": {"families": [("c09stop", 3), ("mixed", 1), ("faultfree", 1), ("c11", 1), ("c09probe", 1)], "level": "fault_enumeration", "judge": ["C09"], "quick_s": 20, "thorough_s": 600, "crash_is_violation": True},
     "C10": {"families": [("c10", 2), ("mixed", 1), ("pause", 1), ("sameid", 1)], "crash_is_violation": True, "judge": ["C10"], "quick_s": 20, "thorough_s": 600},
-    "C11": {"families": [("c11", 2), ("c11lock", 1)], "judge": ["C11"], "quick_s": 20, "thorough_s": 600, "crash_is_violation": True},
+    "C11": {"families": [("c11", 2), ("c11lock", 1), ("c11reacq", 1)], "judge": ["C11"], "quick_s": 20, "thorough_s": 600, "crash_is_violation": True},
     "C12": {"families": [("c12", 1)], "crash_is_violation": True, "judge": ["C12"], "quick_s": 20, "thorough_s": 600},
     "C13": {"families": [("c13", 1)], "judge": ["C13"], "quick_s": 20, "thorough_s": 600, "crash_is_violation": True},
     "C14": {"families": [("c14sim", 1)], "judge": ["C14"], "quick_s": 12, "thorough_s": 300, "post": "c14_differential"},
